@@ -252,7 +252,9 @@ def known_match(prop, **kw):
 # ----------------------------------------------------------------------------------------------
 # exploration-only stream: (1) generic packages with generic TYPES and types of their own, deferred constants, used
 # through instances in typed contexts; (2) explicit overloads of predefined operations followed by an alias of the type
-# in the same region, arrays whose element is named by a subtype with ordering operators and MINIMUM/MAXIMUM.  (The MiniVHDL reference has generic packages with constant generics only —
+# in the same region, arrays whose element is named by a subtype with ordering operators and MINIMUM/MAXIMUM;
+# (3) individual association in calls of overloaded subprograms and in port maps, generate statements (case / if-elsif-else /
+# for) whose alternatives reuse labels and declared names, labelled loops with exit / next <label> [when condition].  (The MiniVHDL reference has generic packages with constant generics only —
 # types inside a generic package need per-instance type identity, which the reference does not model — so these
 # programs are hand-written templates with parameters, valid by inspection, NOT covered by the theorems.)
 # ----------------------------------------------------------------------------------------------
@@ -408,11 +410,93 @@ def template_program2(k, r):
                  ("u_user.vhd", "\n".join(u) + "\n"), ("u_other.vhd", "\n".join(other) + "\n")]
 
 
+def template_program3(k, r):
+    """individual (sub-element) association in calls of OVERLOADED subprograms and in port maps; generate statements of
+    every form whose sibling alternatives reuse labels and declared names; labelled loops with exit/next <label> [when]"""
+    lib = "vl%d" % k
+    pk, ent, sub = "ipk%d" % k, "ient%d" % k, "isub%d" % k
+    pkg = """package %s is
+  type ivec_t is array (0 to 3) of integer;
+  type word_t is array (0 to 3) of bit;
+  type ipair_t is record
+    first : integer;
+    second : integer;
+  end record;
+  type bpair_t is record
+    first : bit;
+    second : bit;
+  end record;
+  function weight (p : ivec_t) return integer;
+  function weight (p : word_t) return integer;
+  function weight (p : ipair_t) return integer;
+  function weight (p : bpair_t) return integer;
+  procedure load (variable p : out ipair_t);
+  procedure load (variable p : out bpair_t);
+  procedure both (p : in ipair_t; variable q : out ipair_t);
+  procedure both (p : in bpair_t; variable q : out bpair_t);
+end package;
+package body %s is
+  function weight (p : ivec_t) return integer is begin return p(0) + p(3); end function;
+  function weight (p : word_t) return integer is begin return 4; end function;
+  function weight (p : ipair_t) return integer is begin return p.first + p.second; end function;
+  function weight (p : bpair_t) return integer is begin return 2; end function;
+  procedure load (variable p : out ipair_t) is begin p := (0, 0); end procedure;
+  procedure load (variable p : out bpair_t) is begin p := ('0', '0'); end procedure;
+  procedure both (p : in ipair_t; variable q : out ipair_t) is begin q := p; end procedure;
+  procedure both (p : in bpair_t; variable q : out bpair_t) is begin q := p; end procedure;
+end package body;
+""" % (pk, pk)
+    subent = """library %s;
+use %s.%s.all;
+entity %s is
+  generic (kind : integer := 0);
+  port (p : in ipair_t; w : in word_t; q : out ipair_t; o : out bit);
+end entity;
+architecture a of %s is
+begin
+  q <= p;
+  o <= w(0);
+end architecture;
+""" % (lib, lib, pk, sub, sub)
+    a, b = r.randrange(10), r.randrange(10)
+    n_alt = 2 + r.randrange(2)
+    alts = []
+    for j in range(n_alt):
+        ch = "when %d =>" % j if j < n_alt - 1 else "when others =>"
+        alts.append("    %s\n      signal tmp : %s;\n      constant cc : integer := %d;\n    begin\n      u_impl : entity %s.%s generic map (kind => %d) port map (p.first => x, p.second => cc, w(0) => b0, w(1 to 3) => wv(1 to 3), q.first => y%d, q.second => open, o => open);\n      main : process\n      begin\n        wait;\n      end process;\n    end;"
+                    % (ch, r.choice(["bit", "integer", "boolean"]), j, lib, sub, j, j))
+    user = ["library %s;" % lib, "use %s.%s.all;" % (lib, pk), "entity %s is" % ent, "  generic (sel : integer := 1; big : boolean := true);", "end entity;",
+            "architecture a of %s is" % ent,
+            "  signal x, y0, y1, y2 : integer := 0;", "  signal b0 : bit;", "  signal wv : word_t;",
+            "  constant w1 : integer := weight(p.first => %d, p.second => %d);" % (a, b),
+            "  constant w2 : integer := weight(p.second => %d, p.first => %d);" % (a, b),
+            "  constant w3 : integer := weight(p.first => '1', p.second => '0');",
+            "  constant w4 : integer := weight(p(0) => '1', p(1 to 3) => \"000\");",
+            "  constant w5 : integer := weight(p(0) => %d, p(1) => 2, p(2) => 3, p(3) => %d);" % (a, b),
+            "begin",
+            "  pr : process", "    variable i, j : integer;", "    variable c, e : bit;", "    variable ip : ipair_t;", "    variable bp : bpair_t;",
+            "    variable total : integer := 0;", "  begin",
+            "    load(p.first => i, p.second => j);", "    load(p.first => c, p.second => e);",
+            "    both(p.first => i, p.second => %d, q => ip);" % a, "    both(p.first => '1', p.second => c, q.first => c, q.second => e);",
+            "    scan : for n in 0 to 7 loop", "      inner : while total < 100 loop",
+            "        total := total + n;", "        next scan when total = %d;" % a, "        exit inner when total > i;",
+            "        exit scan when j < n and big;", "        next inner when n = %d;" % b, "        exit when total = 50;", "        next;",
+            "      end loop inner;", "    end loop scan;", "    wait;", "  end process;",
+            "  g_case : case sel generate"] + alts + ["  end generate;",
+            "  g_if : if big generate", "    signal tmp : bit;", "  begin", "    u_impl : tmp <= b0;", "    main : process begin wait; end process;",
+            "  elsif sel = 2 generate", "    signal tmp : integer;", "  begin", "    u_impl : tmp <= x;", "    main : process begin wait; end process;",
+            "  else generate", "    signal tmp : boolean;", "  begin", "    u_impl : tmp <= big;", "    main : process begin wait; end process;",
+            "  end generate;",
+            "  g_for : for n in 0 to 2 generate", "    signal tmp : integer;", "  begin", "    u_impl : tmp <= x + n;", "  end generate;",
+            "end architecture;"]
+    return lib, [("v_pkg.vhd", pkg), ("v_sub.vhd", subent), ("v_user.vhd", "\n".join(user) + "\n")]
+
+
 def template_bundle(seed_, n, path, mode="w", first=0):
     r = random.Random(seed_ * 31 + 5)
     with open(path, mode) as f:
         for k in range(first, first + n):
-            lib, files = template_program(k, r) if k % 2 == 0 else template_program2(k, r)
+            lib, files = (template_program, template_program2, template_program3)[k % 3](k, r)
             f.write("P t%d\n" % k)
             for name, text in files:
                 lines = text.split("\n")
@@ -625,7 +709,9 @@ def main(tier, replay=None):
                         "MiniVHDL fragment and outside the theorems (valid by inspection); every second template program "
                         "instead declares explicit overloads of predefined operations (\"<\", \"=\", maximum, to_string ...) "
                         "followed by an alias of the type in the same region, and compares arrays whose element is named by "
-                        "a subtype (natural, std_logic, user subtypes) with < <= > >= and MINIMUM/MAXIMUM"),
+                        "a subtype (natural, std_logic, user subtypes) with < <= > >= and MINIMUM/MAXIMUM; every third one has "
+                        "individual association in overloaded calls and port maps, case/if/for generate statements whose "
+                        "alternatives reuse labels and names, and labelled loops with exit/next <label> when"),
         "partial": True,
         "trusted_base": TRUSTED_BASE_COMMON + [
             "the reference semantics Mini/Sem.v is a sufficient condition for LRM validity on the fragment (two conservative "
